@@ -91,6 +91,17 @@ func report(prop, tier string, seed int, verif, repo string, cs *ContractSet, l 
 				}
 				continue
 			}
+			if len(o.Props) > 0 {
+				mine := false
+				for _, p := range o.Props {
+					if p == prop {
+						mine = true
+					}
+				}
+				if !mine {
+					continue // this clause belongs to other properties only
+				}
+			}
 			if o.Kind == "side" {
 				if o.ok() {
 					bySolver[o.Solver]++
